@@ -105,6 +105,38 @@ fn main() {
                 inputs.push(b"<MixedList k=\"\"><Unit/>t<Newtype>n</Newtype><Struct y=\"\"><x>1</x></Struct></MixedList>".to_vec());
                 inputs.push(b"<Nested id=\"1\"><inner a=\"\"><v>x</v></inner><list a=\"\"><v/></list><tail>t</tail></Nested>".to_vec());
             }
+            if prop == "C15" {
+                inputs = vec![];
+                for d in [
+                    "<Elems><a>x y</a><b>1</b><c>true</c><e>Red</e><f>y</f><g>2</g></Elems>",
+                    "<MixedList k=\"'\"><Unit/>t &amp; u<Newtype>n</Newtype><Struct y=\"\"><x>1</x></Struct></MixedList>",
+                    "<Nested id=\"1\"><inner a=\"&lt;\"><v>x</v></inner><list a=\"\"><v/></list><list a='q'><v>w</v></list><tail>t</tail></Nested>",
+                    "<r><u>x</u> <a>1</a><![CDATA[ c ]]> t<zz><e>x</e> y</zz>\n  <a/></r>",
+                    "<XsLists nums=\"1 2 3\" words=\"a b\">x y z</XsLists>",
+                    "<a>1</a><a>2</a>text<b/>",
+                    "<r xmlns:xsi=\"http://www.w3.org/2001/XMLSchema-instance\"><a xsi:nil=\"true\">2</a><b k=\"1\"/></r>",
+                ] {
+                    let mut v = vec![0u8];
+                    v.extend_from_slice(d.as_bytes());
+                    inputs.push(v);
+                    let mut v = vec![4u8, 0, 86, 0, 182];
+                    v.extend_from_slice(d.as_bytes());
+                    inputs.push(v);
+                }
+            }
+            if prop == "C07" || prop == "C14" {
+                // generated target types: header flag + [k][choices][document]
+                let flag: u8 = if prop == "C07" { 2 } else { 0x20 };
+                let docs: Vec<Vec<u8>> = inputs.iter().rev().take(3).cloned().collect();
+                for (k, d) in docs.iter().enumerate() {
+                    for choices in [vec![0u8], vec![3u8, 0, 86, 200]] {
+                        let mut v = vec![k as u8, flag | (k as u8 & 1), 0x55, 3];
+                        v.extend_from_slice(&choices);
+                        v.extend_from_slice(d);
+                        let _ = std::fs::write(format!("{}/seed-dyn-{}-{}", dir, k, choices.len()), v);
+                    }
+                }
+            }
             for (k, inp) in inputs.iter().enumerate() {
                 for hdr in [[0u8, 0, 0, 0], [127, 0x41, 3, 1], [(k as u8).wrapping_mul(37), 0x85, 0x55, 2]] {
                     let mut v = hdr.to_vec();
@@ -113,6 +145,44 @@ fn main() {
                 }
             }
             println!("wrote {} seeds to {}", inputs.len() * 3, dir);
+        }
+        "fuzz-stats" => {
+            // qxv fuzz-stats <Cxx> <corpus dir>...: run every corpus file through the oracle and print
+            // how many decode, are excluded, are non-trivial, and the class histogram (JSON)
+            let prop = args.get(1).cloned().unwrap_or_else(|| usage());
+            engine::install_quiet_panic_hook();
+            let (mut files, mut decoded, mut excluded, mut nontrivial, mut failed) = (0u64, 0u64, 0u64, 0u64, 0u64);
+            let mut classes: std::collections::BTreeMap<String, u64> = Default::default();
+            let mut excl: std::collections::BTreeMap<String, u64> = Default::default();
+            for dir in &args[2..] {
+                let rd = match std::fs::read_dir(dir) {
+                    Ok(r) => r,
+                    Err(_) => continue,
+                };
+                for e in rd.filter_map(|e| e.ok()) {
+                    let data = match std::fs::read(e.path()) {
+                        Ok(d) => d,
+                        Err(_) => continue,
+                    };
+                    files += 1;
+                    if let Some((_, v)) = qxv::fuzz::run(&prop, &data) {
+                        decoded += 1;
+                        if let Some(x) = v.excluded {
+                            excluded += 1;
+                            *excl.entry(x.to_string()).or_default() += 1;
+                        } else if v.nontrivial {
+                            nontrivial += 1;
+                        }
+                        if v.fail.is_some() {
+                            failed += 1;
+                        }
+                        for c in &v.classes {
+                            *classes.entry(c.to_string()).or_default() += 1;
+                        }
+                    }
+                }
+            }
+            println!("{}", serde_json::json!({"corpus_files": files, "decoded": decoded, "excluded": excluded, "excluded_by_reason": excl, "nontrivial": nontrivial, "failed": failed, "classes": classes}));
         }
         "fuzz-artifact" => {
             // qxv fuzz-artifact <Cxx> <artifact file>: re-run a libFuzzer input through the oracle
